@@ -13,6 +13,7 @@ import os
 
 import extie
 import c02gauss
+import c02exotic
 import gridlib as gl
 import moments
 import vlib
@@ -98,6 +99,12 @@ def run(res, tier, seed, replay_script=None):
     if replay_script is None:
         # Gauss rules: exactness to 2n-1 from the orthogonality of the node polynomial (Properties_C02_gauss.v); the hypotheses are evaluated on the library's nodes and weights
         c02gauss.run(res, tier, seed)
+        # exotic (Addons/tsgExoticQuadrature.hpp) and custom-tabulated rules: every declared monomial against exact rational moments, shifts of every sign
+        c02exotic.run(res, tier, seed)
+        px = vlib.coq_props("C02_exotic")
+        res.coverage["exotic_shift_theorems"] = {"props_file": "coq/Props/Properties_C02_exotic.v", "obligations": px["obligations"], "discharged": px["discharged"],
+                                                 "theorems": px["theorems"], "print_assumptions": px["assumptions"]}
+        proof_broken = proof_broken or not px["ok"]
     drv = vlib.build_driver("tsgdrv")
     wd = os.path.join(vlib.BUILD, "work", PID)
     os.makedirs(wd, exist_ok=True)
@@ -295,5 +302,9 @@ def replay(path):
     import json
     rp = json.load(open(path))
     res = vlib.Result(PID, "quick", rp.get("seed", 1), LEVEL)
+    if rp.get("driver") == "exoticdrv":
+        # the exotic / custom-tabulated stream of the recorded seed is re-run (it contains the recorded case)
+        c02exotic.run(res, "quick", rp.get("seed", 1))
+        return res.finish()
     run(res, "quick", rp.get("seed", 1), replay_script=rp.get("script"))
     return res.finish()
